@@ -96,6 +96,13 @@ def checkRig (prop : String) (input : Json) (impl : Json) : PropOut := Id.run do
   let p := parseProject ((input.getObjVal? "project").toOption.getD Json.null)
   let reqs := (jarrD input "requests").toList
   let projErr := jstrD impl "projErr"
+  if jboolD input "expectRefused" then
+    -- a route whose last result is not an error type: refused before anything is generated
+    let wrote := (objEntries ((impl.getObjVal? "files").toOption.getD Json.null)).any fun (_, f) => jboolD f "written"
+    let ok := !projErr.isEmpty && !wrote
+    return { model := Json.str "refused", implView := Json.str (if ok then "refused" else "accepted"),
+             implFails := if ok then [] else [s!"uncompilable-project-accepted:buildErr={(jstrD impl "buildErr").take 160}"], nontrivial := prop = "C09",
+             notes := ["d:expect-refused"] }
   if !projErr.isEmpty then
     -- the generator only emits projects the tool must accept
     return { model := Json.str "accepted", implView := Json.str ("refused: " ++ projErr.take 120), implFails := ["rig-project-refused"], nontrivial := false }
